@@ -49,6 +49,7 @@ CRATE_FINDERS = {
     "index": ("src/core/mod.rs", "units/index/finder_test.rs"),
     "analyze": ("src/app/analyze.rs", "units/analyze/finder_test.rs"),
     "runexec": ("src/app/run.rs", "units/runexec/finder_test.rs"),
+    "file": ("src/core/file.rs", "units/file/finder_test.rs"),
 }
 CACHE = os.path.join(U.VERIF, ".cache")
 
